@@ -65,6 +65,8 @@ mut("c01-selfing-uses-parents", "C01", "pybrops/breed/prot/mate/TwoWayDHCross.py
 mut("c01-counter-not-advanced", "C01", "pybrops/breed/prot/mate/SelfCross.py", "        self.progeny_counter += progcnt", "        self.progeny_counter += max(progcnt - 1, 0)", "progeny counter advances by one too few")
 mut("c01-xoprob-not-carried", "C01", "pybrops/breed/prot/mate/ThreeWayDHCross.py", "            vrnt_xoprob = pgmat.vrnt_xoprob,", "            vrnt_xoprob = pgmat.vrnt_xoprob * 1.0 if pgmat.nvrnt < 9 else pgmat.vrnt_xoprob[::-1].copy(),", "crossover probabilities reversed in progeny with >= 9 markers")
 mut("c01-parent-mutated", "C01", "pybrops/breed/prot/mate/FourWayCross.py", "        geno = pgmat.mat\n", "        geno = pgmat.mat\n        if len(xconfig) == 5: geno[0,0,0] = geno[1,0,0]\n", "parent matrix written when there are exactly 5 crosses")
+mut("c01-revert-hapref-3wdh", "C01", "pybrops/breed/prot/mate/ThreeWayDHCross.py", "            vrnt_hapref = pgmat.vrnt_hapref,\n", "", "reverts fix 84ec3ecd at one site (reference alleles not forwarded)")
+mut("c01-hapref-from-hapalt-4wdh", "C01", "pybrops/breed/prot/mate/FourWayDHCross.py", "            vrnt_hapref = pgmat.vrnt_hapref,", "            vrnt_hapref = pgmat.vrnt_hapalt,", "reference alleles filled from the alternative alleles")
 
 # ---------------------------------------------------------------- C08
 PR = "pybrops/core/random/prng.py"
